@@ -106,39 +106,21 @@ example : cutsAt 5 [34, 97] 32 "" = false := by decide
 
 /-! ## 2. comments -/
 
-/-- The full statement for block comments: a block comment (a body without `*/`) in front of a
-    token, at any lexer state, changes nothing. -/
-def C20_full_block_comment : Prop :=
-  ∀ (f : Nat) (body rest : Chars) (prev : String), properBody body = true →
-    lexKL f ([47, 42] ++ body ++ [42, 47] ++ rest) prev = lexKL f rest prev
-
-/-- `1 /* a */ /* b */ + 2`: after `1`, the text `/* a */ /* b */ + 2` lexes to `/ * b * / + 2`
-    instead of `+ 2` (two ADJACENT block comments; as found in the design phase). -/
-theorem C20_counterexample_adjacent_comments : ¬ C20_full_block_comment := by
-  intro h
-  have := h 12 [32, 97, 32] [32, 47, 42, 32, 98, 32, 42, 47, 32, 43, 32, 50] "INT" (by decide)
-  revert this
-  decide
-
-/-- `1 /*/ a */ + 2`: a comment body that begins with `/` — the lexer takes `/*/` for a
-    complete comment. -/
-theorem C20_counterexample_slash_body : ¬ C20_full_block_comment := by
-  intro h
-  have := h 12 [47, 32, 97, 32] [32, 43, 32, 50] "INT" (by decide)
-  revert this
-  decide
-
-/-- **One block comment per gap is invisible.**  For every lexer state: a block comment whose
-    body does not close early (`okBody`: no `*/` inside, not beginning with `/`) followed by a
-    text that does not go on with another comment (`commentFollows = false`) gives the same
-    token stream as the text without it. -/
-theorem lex_block_comment_invariant_partial (f : Nat) (body rest : Chars) (prev : String)
-    (hb : okBody body = true) (hc : commentFollows rest = false) :
+/-- **A block comment is invisible** (`lex_block_comment_invariant`; the full statement — until
+    the repairs `fix: skip every comment in front of a token, not only the first block comment`
+    and `fix: do not take the `*` of an opening `/*` for the start of the closing `*/`` it was
+    `def C20_full_block_comment : Prop` with two counterexamples, and
+    `lex_block_comment_invariant_partial` carried the guards `okBody` / `commentFollows`).  For
+    every lexer state, EVERY comment body without `*/` (and without NUL; it may begin with `/`,
+    contain `/*`, `//`, `#`, quotes, newlines) and EVERY text after the comment (another
+    comment included): the token stream of `/*body*/rest` is that of `rest`. -/
+theorem lex_block_comment_invariant (f : Nat) (body rest : Chars) (prev : String)
+    (hb : properBody body = true) :
     lexKL f ([47, 42] ++ body ++ [42, 47] ++ rest) prev = lexKL f rest prev := by
   cases f with
   | zero => rfl
   | succ f =>
-    simp only [okBody, Bool.and_eq_true, Bool.not_eq_true'] at hb
+    simp only [properBody, Bool.and_eq_true, Bool.not_eq_true'] at hb
     have h0 : ∀ c ∈ body, c ≠ 0 := by
       intro c hc' e
       have : body.contains 0 = true := by simp [← e, hc']
@@ -151,9 +133,9 @@ theorem lex_block_comment_invariant_partial (f : Nat) (body rest : Chars) (prev 
       have e : [47, 42] ++ body ++ [42, 47] ++ rest = 47 :: 42 :: (body ++ (42 :: 47 :: rest)) := by simp
       rw [e, run_cons_more _ i st (by decide : stepChar (.start false) 47 = .more .slash true)]
       simp only [↓reduceIte]
-      rw [run_cons_more _ (i + 1) i (by decide : stepChar .slash 42 = .more (.block true) false)]
+      rw [run_cons_more _ (i + 1) i (by decide : stepChar .slash 42 = .more (.block false) false)]
       simp only [Bool.false_eq_true, ↓reduceIte]
-      obtain ⟨s', hs'⟩ := run_block_body body true (42 :: 47 :: rest) (i + 1 + 1) i hb.1 h0
+      obtain ⟨s', hs'⟩ := run_block_body body false (42 :: 47 :: rest) (i + 1 + 1) i hb.1 h0
       rw [hs']
       have st1 : stepChar (.block s') 42 = .more (.block true) false := by
         cases s' <;> decide
@@ -163,7 +145,7 @@ theorem lex_block_comment_invariant_partial (f : Nat) (body rest : Chars) (prev 
       simp only [Bool.false_eq_true, ↓reduceIte]
       congr 1
       omega
-    have hst := start_true_eq rest (0 + (body.length + 4)) 0 hc
+    have hst := start_true_eq rest (0 + (body.length + 4)) 0
     apply lexKL_congr f _ _ prev
     · rw [scan_out, scan_out, hrun, hst.1]
     · rw [scan_next, scan_next, hrun, hst.2]
@@ -171,12 +153,93 @@ theorem lex_block_comment_invariant_partial (f : Nat) (body rest : Chars) (prev 
       have hl : ([47, 42] ++ body ++ [42, 47]).length = 0 + (body.length + 4) := by simp
       rw [e, ← hl, drop_add_append]
 
-/-- non-vacuity: `/* a */ + 2` -/
-example : okBody [32, 97, 32] = true ∧ commentFollows [32, 43, 32, 50] = false := by decide
+/-- the full statement, as it was named while it was false -/
+theorem C20_full_block_comment :
+    ∀ (f : Nat) (body rest : Chars) (prev : String), properBody body = true →
+      lexKL f ([47, 42] ++ body ++ [42, 47] ++ rest) prev = lexKL f rest prev :=
+  lex_block_comment_invariant
+
+/-- **Any NUMBER of block comments in a gap is invisible.**  For every lexer state and every
+    list of comments (each a proper body, each followed by any run of spaces/tabs, none
+    included): the token stream of `/*b₁*/ws₁/*b₂*/ws₂…/*bₙ*/wsₙ rest` is that of `rest`. -/
+theorem lex_comment_run_invariant (f : Nat) : ∀ (cs : List (Chars × Chars)) (rest : Chars) (prev : String),
+    commentRunOk cs = true → lexKL f (commentRun cs ++ rest) prev = lexKL f rest prev
+  | [], rest, prev, _ => rfl
+  | (body, ws) :: cs, rest, prev, h => by
+    simp only [commentRunOk, List.all_cons, Bool.and_eq_true] at h
+    obtain ⟨⟨hb, hw⟩, hr⟩ := h
+    have hws : allBlank ws := fun c hc => (List.all_eq_true.1 hw) c hc
+    have e : commentRun ((body, ws) :: cs) ++ rest
+        = [47, 42] ++ body ++ [42, 47] ++ (ws ++ (commentRun cs ++ rest)) := by
+      simp [commentRun]
+    rw [e, lex_block_comment_invariant f body _ prev hb, lex_blanks_ignored f ws _ prev hws]
+    exact lex_comment_run_invariant f cs rest prev hr
+
+/-- non-vacuity, and the two texts of the repaired findings: `/* a */ /* b */ + 2` and
+    `/*/ a */ + 2` (after the token `1`) now lex as ` + 2` -/
+example : properBody [32, 97, 32] = true ∧ properBody [47, 32, 97, 32] = true := by decide
+example : lexKL 12 ([47, 42] ++ [32, 97, 32] ++ [42, 47] ++ [32, 47, 42, 32, 98, 32, 42, 47, 32, 43, 32, 50]) "INT"
+    = lexKL 12 [32, 43, 32, 50] "INT" := by decide
+example : lexKL 12 ([47, 42] ++ [47, 32, 97, 32] ++ [42, 47] ++ [32, 43, 32, 50]) "INT"
+    = lexKL 12 [32, 43, 32, 50] "INT" := by decide
+example : commentRunOk [([32, 97, 32], [32]), ([47], []), ([42, 42], [9, 32])] = true := by decide
+
+/-! ### Historical: the two block-comment defects of the lexer before the repairs -/
+
+/-- the full statement about the PRE-FIX lexer (false): a block comment in front of a token
+    changes nothing -/
+def C20_preFix_full_block_comment : Prop :=
+  ∀ (f : Nat) (body rest : Chars) (prev : String), properBody body = true →
+    preFixLexKL f ([47, 42] ++ body ++ [42, 47] ++ rest) prev = preFixLexKL f rest prev
+
+/-- HISTORICAL (finding `C20-adjacent-comments`, repaired; was
+    `C20_counterexample_adjacent_comments`).  `1 /* a */ /* b */ + 2`: after `1`, the pre-fix
+    lexer read `/* a */ /* b */ + 2` as `/ * b * / + 2` instead of `+ 2` (two ADJACENT block
+    comments; as found in the design phase). -/
+theorem C20_fixed_adjacent_comments_were_tokens : ¬ C20_preFix_full_block_comment := by
+  intro h
+  have := h 12 [32, 97, 32] [32, 47, 42, 32, 98, 32, 42, 47, 32, 43, 32, 50] "INT" (by decide)
+  revert this
+  decide
+
+/-- HISTORICAL (finding `C20-block-comment-body-starting-with-slash`, repaired; was
+    `C20_counterexample_slash_body`).  `1 /*/ a */ + 2`: a comment body that begins with `/` —
+    the pre-fix lexer took `/*/` for a complete comment. -/
+theorem C20_fixed_slash_body_closed_early : ¬ C20_preFix_full_block_comment := by
+  intro h
+  have := h 12 [47, 32, 97, 32] [32, 43, 32, 50] "INT" (by decide)
+  revert this
+  decide
+
+/-- HISTORICAL: the guards the partial theorem carried name exactly these two inputs: the
+    first counterexample's text goes on with a comment, the second's body begins with `/` (and is
+    therefore not `okBody`), while both bodies are proper -/
+example : commentFollows [32, 47, 42, 32, 98, 32, 42, 47, 32, 43, 32, 50] = true ∧
+    slashBody [47, 32, 97, 32] = true ∧ okBody [47, 32, 97, 32] = false ∧ okBody [32, 97, 32] = true := by
+  decide
+
+/-- HISTORICAL: outside the two guards the repairs change nothing, on witness texts — the whole
+    result of one call of `Next` (token, recorded start — the comment's —, end, resume offset,
+    runes looked at) is the pre-fix one: `/* a */ + 2`; `/* a⏎ */ )` (a two-line comment);
+    `/* a */ / 2` (a division after the comment); `/* a` and `/*` (unterminated: the EOF token
+    ends one past the end of the text); `/**/x`.  On every run the harness compares the
+    repaired machine with the repaired lexer on all these shapes, positions included. -/
+example : preFixLexKL 12 ([47, 42] ++ [32, 97, 32] ++ [42, 47] ++ [32, 43, 32, 50]) "INT"
+    = lexKL 12 ([47, 42] ++ [32, 97, 32] ++ [42, 47] ++ [32, 43, 32, 50]) "INT" := by decide
+example : preFixScan [47, 42, 32, 97, 32, 42, 47, 32, 43, 32, 50] "INT" = scan [47, 42, 32, 97, 32, 42, 47, 32, 43, 32, 50] "INT"
+    ∧ scan [47, 42, 32, 97, 32, 42, 47, 32, 43, 32, 50] "INT" = ⟨.tok "+" [43], 0, 8, 9, 10⟩ := by decide
+example : preFixScan [47, 42, 32, 97, 10, 32, 42, 47, 32, 41] "" = scan [47, 42, 32, 97, 10, 32, 42, 47, 32, 41] "" := by decide
+example : preFixScan [47, 42, 32, 97, 32, 42, 47, 32, 47, 32, 50] "INT" = scan [47, 42, 32, 97, 32, 42, 47, 32, 47, 32, 50] "INT"
+    ∧ (scan [47, 42, 32, 97, 32, 42, 47, 32, 47, 32, 50] "INT").out = .tok "/" [47] := by decide
+example : preFixScan [47, 42, 32, 97] "" = scan [47, 42, 32, 97] "" ∧ scan [47, 42, 32, 97] "" = ⟨.tok "EOF" [], 0, 5, 5, 5⟩ := by decide
+example : preFixScan [47, 42] "" = scan [47, 42] "" ∧ preFixScan [47, 42, 42, 47, 120] "" = scan [47, 42, 42, 47, 120] "" := by decide
+/-- … and where they differ: `/*/` at the end of the text was a complete comment, it now is an
+    unterminated one (as `/* a` always was) -/
+example : preFixScan [47, 42, 47] "" = ⟨.tok "EOF" [], 0, 3, 4, 4⟩ ∧ scan [47, 42, 47] "" = ⟨.tok "EOF" [], 0, 4, 4, 4⟩ := by decide
 
 /-- **A line comment up to the end of its line is invisible** (`//…` and `#…`), at every lexer
-    state that has not already skipped a block comment: the stream is that of the newline and
-    what follows it. -/
+    state: the stream is that of the newline and what follows it.  (After block comments in
+    the same gap: `lex_comments_then_line_comment`.) -/
 theorem lex_line_comment_invariant (f : Nat) (body rest : Chars) (prev : String)
     (hb : ∀ c ∈ body, c ≠ 10 ∧ c ≠ 0) :
     lexKL f ([47, 47] ++ body ++ 10 :: rest) prev = lexKL f (10 :: rest) prev ∧
@@ -221,6 +284,22 @@ theorem lex_line_comment_invariant (f : Nat) (body rest : Chars) (prev : String)
             = (35 :: body ++ [10]).length + 0 := by simp [finish]; omega
         rw [e, hl, drop_add_append]
         rfl
+
+/-- **Block comments and then a line comment** — any number of block comments (with blanks
+    between and after them) followed by a `//…` or `#…` comment up to the end of the line, at
+    every lexer state: the stream is that of the newline and what follows it.  (Before the
+    repair of `C20-adjacent-comments` the line comment was lexed as tokens.) -/
+theorem lex_comments_then_line_comment (f : Nat) (cs : List (Chars × Chars)) (body rest : Chars)
+    (prev : String) (hc : commentRunOk cs = true) (hb : ∀ c ∈ body, c ≠ 10 ∧ c ≠ 0) :
+    lexKL f (commentRun cs ++ ([47, 47] ++ body ++ 10 :: rest)) prev = lexKL f (10 :: rest) prev ∧
+    lexKL f (commentRun cs ++ (35 :: body ++ 10 :: rest)) prev = lexKL f (10 :: rest) prev := by
+  rw [lex_comment_run_invariant f cs _ prev hc, lex_comment_run_invariant f cs _ prev hc]
+  exact lex_line_comment_invariant f body rest prev hb
+
+/-- `/* a */ // b⏎x` reads as `⏎x` -/
+example : lexKL 9 (commentRun [([32, 97, 32], [32])] ++ ([47, 47] ++ [32, 98] ++ 10 :: [120])) "INT"
+    = lexKL 9 (10 :: [120]) "INT" :=
+  (lex_comments_then_line_comment 9 _ _ _ _ (by decide) (by decide)).1
 
 /-! ## 3. CRLF -/
 
